@@ -107,6 +107,43 @@ theorem seqTail_le {α : Type} (elem : List Tok → Option (α × List Tok))
             simp at h1 h2 ⊢; omega
       · simp only [hk, if_false, Option.some.injEq] at h; subst h; simp
 
+/-- FUEL of `(COMMA x)*`: one unit per remaining token always suffices -- every round consumes the comma, and the element
+    parser never returns more tokens than it got -- so `none` from `seqTail` (hence from `seqP`, which starts it with the
+    number of remaining tokens) is always a syntax error, never exhaustion -/
+theorem seqTail_fuel_stable {α : Type} (elem : List Tok → Option (α × List Tok))
+    (he : ∀ toks x, elem toks = some x → x.2.length ≤ toks.length) :
+    ∀ (fuel fuel' : Nat) (toks : List Tok), toks.length ≤ fuel → toks.length ≤ fuel' →
+      seqTail elem fuel toks = seqTail elem fuel' toks := by
+  intro fuel
+  induction fuel with
+  | zero =>
+    intro fuel' toks h _
+    have : toks = [] := by cases toks with
+      | nil => rfl
+      | cons _ _ => simp at h
+    subst this
+    rw [seqTail.eq_def, seqTail.eq_def]
+  | succ f ih =>
+    intro fuel' toks h h'
+    cases toks with
+    | nil => rw [seqTail.eq_def, seqTail.eq_def]
+    | cons t r =>
+      cases fuel' with
+      | zero => simp at h'
+      | succ f' =>
+        rw [seqTail.eq_def elem (f + 1), seqTail.eq_def elem (f' + 1)]
+        simp only
+        split
+        · cases hel : elem r with
+          | none => rfl
+          | some y =>
+            obtain ⟨x, r'⟩ := y
+            have hl := he r (x, r') hel
+            simp only at hl
+            simp only [List.length_cons] at h h'
+            simp only [ih f' r' (by omega) (by omega)]
+        · rfl
+
 theorem seqP_le {α : Type} (elem : List Tok → Option (α × List Tok))
     (he : ∀ toks x, elem toks = some x → x.2.length ≤ toks.length)
     (toks : List Tok) (x : List α × List Tok) (h : seqP elem toks = some x) : x.2.length ≤ toks.length := by
